@@ -131,6 +131,19 @@ def python_layer_events():
                         except BaseException as e:  # noqa
                             exc, bases, isexc = exc_info(e)
                         out.append(dict(ev="Install", via="User", acode=acode, akeylen=alen, pcode=pcode, pkeylen=plen, exc=exc, bases=bases, isexc=isexc))
+    # passwords are opaque octet strings, whatever they look like
+    from checks import c13
+    for pw in c13.SHAPED_PASSWORDS:
+        for K, alg in ((Md5Key, 1), (Sha1Key, 2)):
+            for P in (None, Aes128Key, DesKey):
+                ue = dict(ev="UserKeys", aalg=alg, kt=0, akey=list(pw), pcipher=0 if P is None else (1 if P is DesKey else 2), pkey=list(pw[::-1]) if P else [],
+                          outa=[], outp=[], exc="", bases=[], isexc=True)
+                try:
+                    u0 = User("u", auth_key=K(pw), priv_key=P(pw[::-1]) if P else None)
+                    ue["outa"], ue["outp"] = list(u0.get_auth_key()), list(u0.get_priv_key()) if P else []
+                except BaseException as e:  # noqa
+                    ue["exc"], ue["bases"], ue["isexc"] = exc_info(e)
+                out.append(ue)
     return out
 
 
